@@ -35,6 +35,11 @@ pure functions of their input, so the prediction is that of the plain op.  Above
 Ckk search, which recurses once per element) the driver answers `skip large-n (oracle only)`
 from the header tokens alone, before parsing the data.
 
+`wscale <s> <op>` / `cscale <s> <op>` (scale cases: the harness also runs the op with all
+weights / coordinates multiplied by `s`): the prediction is that of `<op>` as written – the
+models are over exact weights and only compare coordinates, so a positive factor changes no
+decision of theirs; what the scaled run of the implementation does is judged by the oracle.
+
 A line is `<op> => <aux…>`: `<op>` is the input the harness ran (public API), `aux` the
 float-derived data the harness read from the implementation through the `coupe::verif`
 hooks, which the models of C03/C09 take as a parameter: the rotated points for Rib
@@ -465,6 +470,8 @@ def handle (toks : List String) : String :=
   let toks := match toks with
     | "reuse-twice" :: r => r
     | "reuse-buf" :: r => r
+    | "wscale" :: _ :: r => r
+    | "cscale" :: _ :: r => r
     | _ => toks
   match toks with
   | algo :: _ :: hdr =>
